@@ -11,6 +11,7 @@ import (
 	"fmt"
 	"io"
 	"net"
+	"sort"
 	"strconv"
 	"sync"
 	"testing/synctest"
@@ -49,7 +50,32 @@ type PickOp struct {
 	Dur    int64    `json:"dur,omitempty"`
 	NoWait bool     `json:"nowait,omitempty"`
 	RPC    *RPCPlan `json:"rpc,omitempty"`
+	// publish: the connectivity state the policy reports with the picker - a
+	// free choice, independent of what the picker answers: "" / "ready",
+	// "idle", "connecting", "tf".
+	State string `json:"state,omitempty"`
+	// publish: hand the channel the picker OBJECT of the previous publish again
+	// (a stateful picker; its answers come from the RPC scripts at Pick time, so
+	// they differ from publish to publish). Drive inserts a quiescence point in
+	// front of such a publish (see planlb.go on generation stamps).
+	Reuse bool `json:"reuse,omitempty"`
 }
+
+// PubState decodes PickOp.State.
+func PubState(s string) connectivity.State {
+	switch s {
+	case "idle":
+		return connectivity.Idle
+	case "connecting":
+		return connectivity.Connecting
+	case "tf":
+		return connectivity.TransientFailure
+	}
+	return connectivity.Ready
+}
+
+// PubStates are the values of PickOp.State.
+var PubStates = []string{"ready", "idle", "connecting", "tf"}
 
 // PickPlan is a whole case.
 type PickPlan struct {
@@ -74,6 +100,17 @@ type PickRec struct {
 	AddrReady bool // the policy's view of the returned SubConn was READY when Pick returned
 	Stable    bool // no readiness-changing operation was in flight (issued since the last quiescence point)
 	Done      *DoneRec
+}
+
+// DefinitelyQueues reports whether the channel must queue the RPC after this
+// answer, and the harness is sure of it: like Blocking, but an answer with a
+// backend's SubConn only counts when it was seen not READY while no
+// readiness-changing operation was in flight.
+func (p *PickRec) DefinitelyQueues(waitForReady bool) bool {
+	if p.Res.Kind == "ready" {
+		return p.Stable && !p.AddrReady
+	}
+	return p.Blocking(waitForReady)
 }
 
 // Blocking reports whether the channel must queue the RPC after this answer.
@@ -109,6 +146,7 @@ type RPCRec struct {
 	Quiesced     bool
 	QPicks       int  // number of picks at the previous quiescence point
 	QBlocked     bool // queued in the channel at the previous quiescence point
+	QSure        bool // ... and the harness is sure of it (see PickRec.DefinitelyQueues)
 	QFinished    bool
 }
 
@@ -448,7 +486,7 @@ func (r *PickRig) Apply(o PickOp) {
 		go r.runRPC(ctx, rec)
 	case "publish":
 		r.PublishesSinceQ++
-		r.Ctl.Publish(connectivity.Ready)
+		r.Ctl.PublishOpts(PubOpts{State: PubState(o.State), Reuse: o.Reuse})
 	case "finish":
 		run := r.Handlers.Running()
 		var cand []*HCall
@@ -504,6 +542,138 @@ func (r *PickRig) Apply(o PickOp) {
 	}
 }
 
+// NextAnswer is the answer the (stateful) picker gives to the RPC's next Pick
+// call (call with the rig locked).
+func (r *PickRig) NextAnswer(rec *RPCRec) PickRes {
+	return rec.Plan.Picks[min(len(rec.Picks), len(rec.Plan.Picks)-1)]
+}
+
+// WouldQueue reports whether the answer keeps the RPC queued whatever the
+// readiness of the backends ("ready" answers: unknown, reported as false).
+func (a PickRes) WouldQueue(waitForReady bool) bool {
+	return a.Kind == "nosc" || a.Kind == "notready" || (a.Kind == "err" && waitForReady)
+}
+
+// DescribePub renders publish gen for messages (call with the rig locked or not;
+// it only takes the controller's lock).
+func (r *PickRig) DescribePub(gen int) string {
+	pubs := r.Ctl.Pubs()
+	if gen < 1 || gen > len(pubs) {
+		return fmt.Sprintf("generation %d", gen)
+	}
+	p := pubs[gen-1]
+	prev := "CONNECTING (channel state after Connect, no publish before)"
+	if gen >= 2 {
+		prev = pubs[gen-2].State.String()
+	}
+	obj := "a new picker object"
+	if p.Reused {
+		obj = "the SAME picker object as the previous publish"
+	}
+	return fmt.Sprintf("generation %d [UpdateState(%v, %s); previous state %s]", gen, p.State, obj, prev)
+}
+
+// PubEffect says, post hoc from the logs, what one publish meant for the RPCs
+// that were queued on the generation before it.
+type PubEffect struct {
+	Pub       PubLog
+	SameState bool // same connectivity state as the previous publish (first publish: as the channel's own CONNECTING)
+	Requeued  int  // RPCs queued by generation Gen-1 whose next Pick call was on this generation and queued them again
+	Released  int  // ... and was answered with something else (READY SubConn, status error, fail-fast error)
+}
+
+// PubEffects evaluates the publish log against the pick records.
+func (r *PickRig) PubEffects() []PubEffect {
+	pubs := r.Ctl.Pubs()
+	out := make([]PubEffect, len(pubs))
+	for i, p := range pubs {
+		out[i].Pub = p
+		prev := connectivity.Connecting
+		if i > 0 {
+			prev = pubs[i-1].State
+		}
+		out[i].SameState = p.State == prev
+	}
+	r.mu.Lock()
+	defer r.mu.Unlock()
+	for _, rec := range r.RPCs {
+		w := rec.Plan.WaitForReady
+		for i := 0; i+1 < len(rec.Picks); i++ {
+			a, b := rec.Picks[i], rec.Picks[i+1]
+			if !a.Blocking(w) || b.Gen != a.Gen+1 || b.Gen > len(out) {
+				continue
+			}
+			if b.Blocking(w) {
+				out[b.Gen-1].Requeued++
+			} else {
+				out[b.Gen-1].Released++
+			}
+		}
+		// queued before any picker existed: the first pick is the re-evaluation
+		if len(rec.Picks) > 0 && rec.MinGen == 0 && rec.Picks[0].Gen == 1 && len(out) > 0 {
+			if rec.Picks[0].Blocking(w) {
+				out[0].Requeued++
+			} else {
+				out[0].Released++
+			}
+		}
+	}
+	return out
+}
+
+// PublishClasses are the histogram classes about publishes that do not look
+// like news at the channel level (same state and / or same picker object).
+func (r *PickRig) PublishClasses() []string {
+	cl := map[string]bool{}
+	run := 0
+	for i, e := range r.PubEffects() {
+		cl["pub_state_"+e.Pub.State.String()] = true
+		if e.SameState {
+			run++
+		} else {
+			run = 1
+		}
+		if i == 0 {
+			run = 1
+		}
+		if run >= 3 {
+			cl["same_state_run_ge3"] = true
+		}
+		if e.SameState && e.Released > 0 {
+			cl["same_state_publish_with_queued_rpc"] = true
+			cl["same_state_"+e.Pub.State.String()+"_publish_with_queued_rpc"] = true
+		}
+		if e.SameState && e.Requeued > 0 {
+			cl["same_state_publish_requeues_rpc"] = true
+		}
+		if e.Pub.Reused && e.Released+e.Requeued > 0 {
+			cl["same_picker_object_republished_with_queued_rpc"] = true
+		}
+		if e.Pub.Reused && e.Released > 0 {
+			cl["same_picker_object_republished_releases_queued_rpc"] = true
+		}
+		if e.Pub.Reused && e.SameState && e.Released > 0 {
+			cl["same_state_and_same_object_releases_queued_rpc"] = true
+		}
+		if !e.SameState && e.Released > 0 {
+			cl["state_change_publish_with_queued_rpc"] = true
+		}
+	}
+	r.mu.Lock()
+	for _, rec := range r.RPCs {
+		if rec.MinGen == 0 {
+			cl["rpc_started_before_first_publish"] = true
+		}
+	}
+	r.mu.Unlock()
+	var out []string
+	for c := range cl {
+		out = append(out, c)
+	}
+	sort.Strings(out)
+	return out
+}
+
 // Dirty reports whether a down/up/kill operation was issued since the last
 // quiescence point (call with the rig locked).
 func (r *PickRig) Dirty() bool { return r.dirty }
@@ -531,8 +701,10 @@ func (r *PickRig) Mark() {
 		rec.QPicks = len(rec.Picks)
 		rec.QFinished = rec.Finished
 		rec.QBlocked = !rec.Finished && len(rec.Picks) > 0 && rec.Picks[len(rec.Picks)-1].Blocking(rec.Plan.WaitForReady)
+		rec.QSure = rec.QBlocked && rec.Picks[len(rec.Picks)-1].DefinitelyQueues(rec.Plan.WaitForReady)
 		if !rec.Finished && len(rec.Picks) == 0 {
 			rec.QBlocked = true // no picker published yet
+			rec.QSure = r.Ctl.Gen() == 0
 		}
 	}
 	r.PublishesSinceQ = 0
@@ -542,6 +714,20 @@ func (r *PickRig) Mark() {
 
 // ---------------------------------------------------------------------------
 // Generator.
+
+// uniform draws a (nearly) uniform number in [0, n) from single bits (rapid's
+// integer generators are deliberately biased towards small values and the
+// bounds). It shrinks towards 0.
+func uniform(rt *rapid.T, n int, label string) int {
+	v := 0
+	for i := 0; i < 10; i++ {
+		v <<= 1
+		if rapid.Bool().Draw(rt, label) {
+			v |= 1
+		}
+	}
+	return v % n
+}
 
 // GenPickPlan draws a plan. profile "done" favours Done-carrying results,
 // retries and cancellations; "gen" favours picker generations, readiness
@@ -589,7 +775,26 @@ func GenPickPlan(rt *rapid.T, profile string, maxOps int) PickPlan {
 		}
 		return rp
 	}
-	p.Ops = append(p.Ops, PickOp{Kind: "publish"})
+	// publishes: the reported state is a free choice with runs of equal states
+	// (a policy aggregating to CONNECTING while its picker serves some RPCs);
+	// a third re-publish the previous picker object.
+	prevState, npub := "connecting", 0 // the channel itself is CONNECTING after Connect
+	genPub := func() PickOp {
+		o := PickOp{Kind: "publish"}
+		if uniform(rt, 100, "samestate") < 45 {
+			o.State = prevState
+		} else {
+			o.State = PubStates[uniform(rt, len(PubStates), "state")]
+		}
+		o.Reuse = npub > 0 && uniform(rt, 100, "reuse") < 30
+		prevState = o.State
+		npub++
+		return o
+	}
+	// RPCs started before the policy has published anything wait on the nil picker
+	if uniform(rt, 10, "firstpub") < 8 {
+		p.Ops = append(p.Ops, genPub())
+	}
 	if profile == "done" {
 		// RPCs first, so that the publish / finish operations that follow walk them through their scripts
 		for i, n := 0, rapid.IntRange(1, 3).Draw(rt, "nstart"); i < n; i++ {
@@ -625,6 +830,8 @@ func GenPickPlan(rt *rapid.T, profile string, maxOps int) PickPlan {
 		switch o.Kind {
 		case "start":
 			o.RPC = genRPC()
+		case "publish":
+			o = genPub()
 		case "finish":
 			o.K = rapid.IntRange(0, 5).Draw(rt, "k")
 			o.Code = rapid.SampledFrom([]int{0, 0, 14, 14, 14, 14, 13, 5}).Draw(rt, "code")
@@ -669,6 +876,13 @@ func DriveOpts(p PickPlan, opts PickRigOpts, oracle func(r *PickRig, final bool)
 		return v
 	}
 	for _, o := range p.Ops {
+		if o.Kind == "publish" && o.Reuse && len(r.OpsSinceQ) > 0 {
+			// re-stamping a picker object needs a quiescent moment (planlb.go)
+			if v := eval(false); v != "" {
+				r.Close()
+				return fmt.Sprintf("before op %d (%s): %s", r.Steps, o.Kind, v), r, nil
+			}
+		}
 		r.Apply(o)
 		if o.NoWait {
 			continue
